@@ -30,16 +30,41 @@ func vC06Bin[T vNum]() {
 	var res Tensor
 	var err error
 	var pan bool
+	mode := vCfgStr("mode") // "" (safe) | unsafe | reuse | incr | reuseA | reuseB   (C07)
+	if form == "TT" {
+		b, bw = vMkOperand[T]("b", shape, vCfgStr("lb"))
+	} else {
+		s = vNondet[T]("s")
+	}
+	var d *Dense
+	var dw []T
+	var opts []FuncOpt
+	switch mode {
+	case "unsafe":
+		opts = append(opts, UseUnsafe())
+	case "reuse":
+		d, dw = vMkOperand[T]("d", shape, vCfgStr("ld"))
+		opts = append(opts, WithReuse(d))
+	case "incr":
+		d, dw = vMkOperand[T]("d", shape, vCfgStr("ld"))
+		opts = append(opts, WithIncr(d))
+	case "reuseA":
+		d, dw = a, aw
+		opts = append(opts, WithReuse(a))
+	case "reuseB":
+		if form != "TT" {
+			return
+		}
+		d, dw = b, bw
+		opts = append(opts, WithReuse(b))
+	}
 	switch form {
 	case "TT":
-		b, bw = vMkOperand[T]("b", shape, vCfgStr("lb"))
-		pan = vCatch(func() { res, err = vCallBin(op, api, a, b) })
+		pan = vCatch(func() { res, err = vCallBin(op, api, a, b, opts...) })
 	case "TS":
-		s = vNondet[T]("s")
-		pan = vCatch(func() { res, err = vCallBin(op, api, a, s) })
+		pan = vCatch(func() { res, err = vCallBin(op, api, a, s, opts...) })
 	case "ST":
-		s = vNondet[T]("s")
-		pan = vCatch(func() { res, err = vCallBin(op, api, s, a) })
+		pan = vCatch(func() { res, err = vCallBin(op, api, s, a, opts...) })
 	}
 	vReach("C06.Bin")
 	n := len(aw)
@@ -69,6 +94,9 @@ func vC06Bin[T vNum]() {
 	if op == "Mod" && vIsInt[T]() {
 		vAssume(!anyUndef)
 	}
+	if mode != "" && op == "Div" && vIsInt[T]() {
+		vAssume(!anyUndef) // zero divisors are decided in safe mode (C06)
+	}
 	if (op == "MinBetween" || op == "MaxBetween") && vIsFloat[T]() {
 		vAssume(!anyUndef) // NaN ordering is outside the statement
 	}
@@ -86,6 +114,16 @@ func vC06Bin[T vNum]() {
 			return
 		}
 	} else {
+		if (mode == "reuse" || mode == "incr" || mode == "reuseA" || mode == "reuseB") && d.RequiresIterator() && err != nil {
+			// a non-contiguous view as destination may be refused (its storage window is larger than the result);
+			// then nothing may have been written anywhere
+			vC06Unchanged(a, aw, "refused-a-unchanged")
+			if b != nil {
+				vC06Unchanged(b, bw, "refused-b-unchanged")
+			}
+			vC06Unchanged(d, dw, "refused-dest-unchanged")
+			return
+		}
 		vAssert(err == nil, "no-error")
 		if err != nil {
 			return
@@ -115,27 +153,70 @@ func vC06Bin[T vNum]() {
 	if !same {
 		return
 	}
+	// returned tensor identity (C07)
+	switch mode {
+	case "":
+		fresh := rd != a && (b == nil || rd != b)
+		vAssert(fresh, "safe-returns-fresh")
+		vAssert(!vSameBacking(rd.Data(), a.Data()), "safe-no-alias-a")
+		if b != nil {
+			vAssert(!vSameBacking(rd.Data(), b.Data()), "safe-no-alias-b")
+		}
+	case "unsafe":
+		vAssert(rd == a, "unsafe-returns-first-tensor")
+	default:
+		vAssert(rd == d, "returns-destination")
+	}
 	got := vSnapshot[T](rd)
 	fdiv0 := op == "Div" && vIsFloat[T]()
+	// known finding: on the iterator path a reuse tensor that is the second operand is overwritten with the first
+	// operand before the operation reads it
+	la, lb := vCfgStr("la"), vCfgStr("lb")
+	kfB := mode == "reuseB" && (la == "T" || la == "S" || la == "SS" || lb == "T" || lb == "S" || lb == "SS")
 	for k := 0; k < n; k++ {
 		x, y := xy(k)
 		def := vBinDefined(op, x, y)
+		g := got[k]
+		if mode == "incr" {
+			// delivered value = old destination + result: compare after subtracting is not exact; assert the sum
+			ok := false
+			switch op {
+			case "Add":
+				ok = vSameBits(g, dw[k]+(x+y))
+			case "Sub":
+				ok = vSameBits(g, dw[k]+(x-y))
+			case "Mul":
+				ok = vSameBits(g, dw[k]+(x*y))
+			case "Div":
+				ok = vSameBits(g, dw[k]+(x/y))
+			default:
+				ok = true // Mod/Pow/MinMax with incr: covered by the kernel-level table (C17)
+			}
+			if fdiv0 {
+				vAssertKF(ok, "incr-value", "KF-C06-fdiv0", vIsZero(y))
+			} else {
+				vAssert(ok, "incr-value")
+			}
+			continue
+		}
 		if fdiv0 {
-			vAssertKF(vBinMatch(op, got[k], x, y), "value", "KF-C06-fdiv0", vIsZero(y))
+			vAssertKF2(vBinMatch(op, g, x, y), "value", "KF-C06-fdiv0", vIsZero(y), "KF-C07-reuseB-iter", kfB)
 		} else if vIsInt[T]() && (op == "Div" || op == "Mod") {
 			if def {
-				vAssert(vBinMatch(op, got[k], x, y), "value")
+				vAssertKF(vBinMatch(op, g, x, y), "value", "KF-C07-reuseB-iter", kfB)
 			}
 		} else {
-			vAssert(vBinMatch(op, got[k], x, y), "value")
+			vAssertKF(vBinMatch(op, g, x, y), "value", "KF-C07-reuseB-iter", kfB)
 		}
 	}
-	// operands unchanged (safe mode)
-	as := vSnapshot[T](a)
-	for k := range aw {
-		vAssert(vSameBits(as[k], aw[k]), "operand-a-unchanged")
+	// every tensor other than the designated destination is unchanged
+	if rd != a {
+		as := vSnapshot[T](a)
+		for k := range aw {
+			vAssert(vSameBits(as[k], aw[k]), "operand-a-unchanged")
+		}
 	}
-	if form == "TT" {
+	if form == "TT" && rd != b {
 		bs := vSnapshot[T](b)
 		for k := range bw {
 			vAssert(vSameBits(bs[k], bw[k]), "operand-b-unchanged")
@@ -180,5 +261,12 @@ func vhC06Refuse() {
 	vAssert(!pan, "refuse-no-panic")
 	if !pan {
 		vAssert(err != nil, "refuse")
+	}
+}
+
+func vC06Unchanged[T vNum](t *Dense, want []T, id string) {
+	got := vSnapshot[T](t)
+	for k := range want {
+		vAssert(vSameBits(got[k], want[k]), id)
 	}
 }
